@@ -228,6 +228,9 @@ class PointJacobi(object):
             return NotImplemented
         if self.__curve != other.curve():
             return False
+        # a point with Y == 0 or Z == 0 represents the point at infinity
+        if not y1 or not z1 or not y2 or not z2:
+            return (not y1 or not z1) and (not y2 or not z2)
         p = self.__curve.p()
 
         zz1 = z1 * z1 % p
